@@ -88,11 +88,16 @@ def rankedRule (rule : String) (j : Json) : Except String (Option RankedRule) :=
   | "geometric" => do pure (some (.positional (.geometric (← j.getObjValAs? Nat "param"))))
   | "modified_borda" => pure (some (.positional .modifiedBorda))
   | "fixed_top" => do pure (some (.positional (.fixedTop (← j.getObjValAs? Int "param"))))
+  | "sequence" => do
+    let a ← pArr (← j.getObjVal? "param")
+    let seq ← a.mapM jsonRat
+    pure (some (.positional (.sequence seq)))
   | "bucklin" => pure (some .bucklin)
   | "bucklin_whole" => pure (some .bucklinWhole)
   | "copeland" => do pure (some (.copeland ((← j.getObjValAs? Nat "param") != 0)))
   | "minimax_wv" => pure (some (.minimax .winningVotes))
   | "minimax_margins" => pure (some (.minimax .margins))
+  | "minimax_pwo" => pure (some (.minimax .pairwiseOpposition))
   | "schulze" => pure (some .schulze)
   | _ => pure none
 
@@ -173,7 +178,12 @@ def handle (op : String) (j : Json) : Option (Except String Json) :=
             let x ← nthKey b (← mv.getObjValAs? Nat "ballot")
             pure (replaceUnit b x (approve w x))
           | k => throw s!"approval: unknown move {k}"
-        pure (answer (slotsE (evalApproval b)) (slotsE (evalApproval p)) (some (dictJson approvalJson moved)))
+        let split := match j.getObjVal? "param" with
+          | .ok Json.null => false
+          | .ok _ => true
+          | .error _ => false
+        let ev := if split then evalApprovalSplit else evalApproval
+        pure (answer (slotsE (ev b)) (slotsE (ev p)) (some (dictJson approvalJson moved)))
       else if rule = "score_sum" then
         let b ← pDict pScoreBallot jb
         let p ← pDict pScoreBallot jp
